@@ -18,11 +18,11 @@ Step(e) ==
           /\ (IF e.created # "ok" /\ g = "Ok" THEN PrintT(<<"DIVERGE", "grammar_accepts_but_pattern_rejected", l>>) ELSE TRUE)
      ELSE TRUE
   \* reference clause: what each text parses to under a local-time pattern without designator fields (PatternParse.tla)
-  /\ IF e.type = "LocalTime" /\ e.created = "ok" /\ "tsep" \in DOMAIN e /\ Parsable(e.pattern)
+  /\ IF e.created = "ok" /\ "tsep" \in DOMAIN e /\ ((e.type = "LocalTime" /\ Parsable(e.pattern)) \/ (e.type = "Offset" /\ OffsetParsable(e.pattern)))
      THEN \A k \in 1..Len(e.parses) :
             LET p == e.parses[k] IN
             IF p.whole /\ p.out \in {"success", "failure"}
-            THEN \E r \in {Parse(e.pattern, p.text, e.tsep)} :
+            THEN \E r \in {IF e.type = "Offset" THEN ParseOffset(e.pattern, p.text, e.tsep) ELSE Parse(e.pattern, p.text, e.tsep)} :
                  \* (the implementation takes a NUL character for the end of the text and ignores what follows it: "17:24" + NUL + anything
                  \*  parses like "17:24"; the reference parser reads the whole text - those disagreements get their own name)
                  IF r.ok # (p.out = "success")
